@@ -289,7 +289,13 @@ def run(ctx):
         tail = list(range(high))
         rng.shuffle(tail)
         script = body + tail + tail + [0] * 12                # termination guaranteed
-        kind, reqs = gen_history(rng, high - 1 if rng.random() < .8 else high, rng.choice([2, 4, 7]), high)
+        nvals = high
+        if len(cases) % 5 == 4:
+            # the same forced collisions in a WIDE range (the values drawn stay small): distinctness must not depend on the range
+            high = rng.choice([2**24, 2**25, 2**31, 2**32])
+            ctx.count('scripted.wide_range', '2^%d' % (high.bit_length() - 1))
+        kind, reqs = gen_history(rng, nvals - 1, rng.choice([2, 4, 7]), high) if high != nvals else \
+            gen_history(rng, high - 1 if rng.random() < .8 else high, rng.choice([2, 4, 7]), high)
         cases.append(one_case(ctx, 'scripted', 0, high, reqs, scripted=script, tag=kind))
     compare(ctx, cases)
 
